@@ -25,6 +25,26 @@ Lemma provenances_no_reader :
   /\ c17_dump_rowfmt_provenances = ["id|"; "timestamp|"; "record|"; ""]%string.
 Proof. repeat split. cbn. intuition discriminate. Qed.
 
+(* ---- wrapper level: every keyword is forwarded under its own name ---- *)
+
+Lemma dump_text_forwards_every_keyword :
+  c17_dump_text_keywords = map (fun p => (p ++ "=" ++ p)%string) c17_dump_text_params
+  /\ c17_dump_text_params = c17_text_formats_dump_text_params.
+Proof. split; reflexivity. Qed.
+
+(* load_text: every parser gets the file of its own table, strict / encoding /
+   base64_metadata as given, and writes into the table of the same name *)
+Lemma load_text_forwards :
+  c17_load_text_parse_calls =
+    ["edges:strict=strict";
+     "individuals:strict=strict,encoding=encoding,base64_metadata=base64_metadata,table=tc.individuals";
+     "migrations:strict=strict,encoding=encoding,base64_metadata=base64_metadata,table=tc.migrations";
+     "mutations:strict=strict,encoding=encoding,base64_metadata=base64_metadata,table=tc.mutations";
+     "nodes:strict=strict,encoding=encoding,base64_metadata=base64_metadata,table=tc.nodes";
+     "populations:strict=strict,encoding=encoding,base64_metadata=base64_metadata,table=tc.populations";
+     "sites:strict=strict,encoding=encoding,base64_metadata=base64_metadata,table=tc.sites"]%string.
+Proof. reflexivity. Qed.
+
 (* ---- population back-fill ---- *)
 
 Lemma fold_max_ge_init : forall l a, a <= fold_left Z.max l a.
